@@ -362,6 +362,79 @@ func TestVerif_C17(t *testing.T) {
 		evs := c17Script(rng, n, rng.Chance(25))
 		c17Case(c, myIdx, cfg, evs, rng.U64(), "random-script")
 	}
+	// Part 3: the continuous recorder's storage fails at random while test recordings are requested
+	nf := c.N(3000, 200000)
+	for s := int64(0); s < nf; s++ {
+		myIdx := idx
+		idx++
+		if !c.Mine(myIdx) {
+			continue
+		}
+		rng := c.RNG(myIdx)
+		x := mf[rng.Intn(6)]
+		cfg := fsmConfig{FPS: x[1], Preview: 1, Trigger: 1, Max: x[0], Constant: true}
+		cfg.Min = rng.Range(0, x[0])
+		evs := c17Script(rng, rng.Range(30, 200), false)
+		c17FaultCase(c, myIdx, cfg, evs, rng.PickInt(10, 50, 100))
+	}
+}
+
+// c17FaultCase: the continuous recorder's storage fails (start and stop calls, at random);
+// a test recording is a separate file on a separate recorder and must come out exactly as
+// it does when the continuous recorder is healthy.
+func c17FaultCase(c *vCtx, idx int64, cfg fsmConfig, evs []fsmEvent, pct int) {
+	exec := func(faulty bool) (*fsmRun, string) {
+		r := newFsmRun(cfg)
+		if faulty {
+			frng := vNewRNG(uint64(idx), 1717)
+			r.fault = func(sink int, op byte, n int) bool {
+				return sink == sinkConst && (op == opStart || op == opStop) && frng.Intn(100) < pct
+			}
+		}
+		for si, e := range evs {
+			if s := r.step(e); s.Panic != "" {
+				return r, fmt.Sprintf("step %d: %s", si, s.Panic)
+			}
+		}
+		return r, ""
+	}
+	c.Case(idx, func() interface{} {
+		r, _ := exec(true)
+		return map[string]interface{}{"config": cfg.String(), "script": scriptString(evs), "trace": traceString(r.steps, 100),
+			"legend": fmt.Sprintf("s=test-recording request; the continuous sink's start/stop calls fail with probability %d%%", pct)}
+	}, func() {
+		r, p := exec(true)
+		if p != "" {
+			c.Violation("panic", "continuous recorder failing", p)
+			return
+		}
+		v := newFsmView(r)
+		for _, x := range oracleC17Test(v) {
+			c.Violation(x.kind, "continuous recorder failing; "+x.class, x.detail)
+		}
+		r0, p0 := exec(false)
+		if p0 != "" {
+			c.Violation("panic", "", p0)
+			return
+		}
+		if a, b := sinkOpsString(r.steps, sinkTest), sinkOpsString(r0.steps, sinkTest); a != b {
+			c.Violation("test-recording-depends-on-continuous-recorder", "", fmt.Sprintf("test sink trace while the continuous recorder's storage fails:\n%s\nwith healthy storage:\n%s", a, b))
+		}
+		nf := 0
+		for _, st := range r.steps {
+			for _, op := range st.Ops[sinkConst] {
+				if op.Err {
+					nf++
+				}
+			}
+		}
+		trecs, _ := protocolScan(r.steps, sinkTest)
+		c.Count("continuous_sink_failures", int64(nf))
+		c.Count("test_recordings_while_continuous_sink_fails", int64(len(trecs)))
+		if nf > 0 && len(trecs) > 0 {
+			c.Nontrivial(vNewHash().Str(cfg.String()).U64(traceHash(r.steps)).Int(pct).Sum())
+		}
+	})
 }
 
 func minInt(a, b int) int {
